@@ -175,52 +175,30 @@ Fixpoint build_pos_map (h : errh) (m : pos_map) (nodes : list node_ref) : result
   | r :: rest => do es <- elements_of h r; do m' <- pm_add_eles h m es; build_pos_map h m' rest
   end.
 
-(* Segment.is_composite(ref_des) / ele_len(ref_des) (segment.py): self.elements[ele_idx] — an index of None is a
-   TypeError, a bad one an IndexError *)
-Definition seg_comp_at (s : seg) (ref_des : str) : result composite :=
-  do ix <- parse_refdes s ref_des;
-  match fst ix with
-  | None => Raise TypeError
-  | Some ei => py_nth (els s) ei
-  end.
-Definition seg_is_composite (s : seg) (ref_des : str) : result bool :=
-  do c <- seg_comp_at s ref_des; Ok (1 <? length c).
-Definition seg_ele_len (s : seg) (ref_des : str) : result nat :=
-  do c <- seg_comp_at s ref_des; Ok (length c).
-
-(* the inner loop 115-120 over j = 1 .. ele_len *)
-Fixpoint tseg_subs (x : xseg) (m : pos_map) (i : nat) (js : list nat) : result (list (option str)) :=
-  match js with
-  | [] => Ok []
-  | j :: r =>
-      let ref_des := fmt_02 (N.of_nat i) ++ l "-" ++ fmt_d (N.of_nat j) in
-      do v <- seg_get_value (xs_d x) (xs_s x) ref_des;
-      let ele_str := escape_html_chars v in
+(* gen_seg reads the elements from seg_data.elements directly (fix 4d8004d: reference designators stop at 99).
+   the inner loop over j = 1 .. len(comp_data): comp_data[j-1].format() is the sub-element value *)
+Fixpoint tseg_subs (m : pos_map) (i : nat) (j : nat) (subs : list str) : list (option str) :=
+  match subs with
+  | [] => []
+  | v :: r =>
+      let ele_str := escape_html_chars (Some v) in
       let ele_str := match pm_get m (Z.of_nat i) with
                      | Some (Some sp) => if (sp =? Z.of_nat j)%Z then wrap_ele_error ele_str else ele_str
                      | _ => ele_str            (* key absent, or subele_pos None != j *)
                      end in
-      do more <- tseg_subs x m i r;
-      Ok (ele_str :: more)
+      ele_str :: tseg_subs m i (S j) r
   end.
 
-(* the loop 111-126 over i = 1 .. len(seg_data) *)
-Fixpoint tseg_items (x : xseg) (m : pos_map) (is_ : list nat) : result (list titem) :=
-  match is_ with
-  | [] => Ok []
-  | i :: r =>
-      let rd := fmt_02 (N.of_nat i) in
-      do comp <- seg_is_composite (xs_s x) rd;
-      do item <- (if comp then
-                    do n <- seg_ele_len (xs_s x) rd;
-                    do subs <- tseg_subs x m i (seq 1 n);
-                    Ok (TList subs)
-                  else
-                    do v <- seg_get_value (xs_d x) (xs_s x) rd;
-                    let ele_str := escape_html_chars v in
-                    Ok (TStr (match pm_get m (Z.of_nat i) with Some _ => wrap_ele_error ele_str | None => ele_str end)));
-      do more <- tseg_items x m r;
-      Ok (item :: more)
+(* the loop over i = 1 .. len(seg_data): a composite (more than one component) lists its components, anything
+   else prints comp_data.format() *)
+Fixpoint tseg_items (x : xseg) (m : pos_map) (i : nat) (cs : list composite) : list titem :=
+  match cs with
+  | [] => []
+  | c :: r =>
+      (if 1 <? length c then TList (tseg_subs m i 1 c)
+       else let ele_str := escape_html_chars (Some (format_comp (subele_term (xs_d x)) c)) in
+            TStr (match pm_get m (Z.of_nat i) with Some _ => wrap_ele_error ele_str | None => ele_str end))
+      :: tseg_items x m (S i) r
   end.
 
 (* 128-135: the errors with code '3' come before the segment line *)
@@ -249,7 +227,7 @@ Definition html_gen_seg (c : html_cfg) (h : errh) (x : xseg) (cur_line : option 
   (* 104-107 *)
   dow m <- w_lift (build_pos_map h [] err_node_list);
   (* 109-126 *)
-  dow t_seg <- w_lift (tseg_items x m (seq 1 (length (els (xs_s x)))));
+  let t_seg := tseg_items x m 1 (els (xs_s x)) in
   (* 128-135 *)
   dow_ w_iter (write_pre_errors h seg_id) err_node_list;
   (* 136-138: `if self.loop_info:` is a truthiness test *)
